@@ -33,6 +33,12 @@ class StrWorld(LifeWorld):
                 chans["L"]["c"].send(chans["L"]["d"])
                 self._settle()
                 chans["R"]["d"] = chans["R"]["c"].receive(timeout=5)
+            elif name == "orphanreconf":
+                orphan = self.gw.newchannel()
+                orphan.reconfigure(py2str_as_py3str=a, py3str_as_py2str=b)
+                self._settle()
+                orphan.close()
+                orphan = None
             elif name == "chreconf":
                 chans[side][c].reconfigure(py2str_as_py3str=a, py3str_as_py2str=b)
             elif name == "setcb":
